@@ -44,6 +44,11 @@ def constant_initialize(U):
             want = t if ts is None else z3.If(t >= ts, t, ts)
             P = prem_of(res.ctx)
             U.prove(f"initialize[{tag}].first_time_is_max(t,t_start)", P, to_z3(r) == want)
+            if ts is not None:
+                # the statement: every answer is a member of { t_start + k*dt }, also the first one of a run that starts late
+                q = (to_z3(r) - ts) / dt
+                U.prove(f"initialize[{tag}].first_time_on_the_lattice_t_start+k*dt", P, z3.And(q == z3.ToReal(z3.ToInt(q)), q >= 0),
+                        info={"witness": "ConstantInterrupts(dt=2, t_start=1).initialize(4) answers 4, then 6, 8, ...: none of them is 1 + 2k", "replay_payload": {"lattice": True}})
             U.prove(f"initialize[{tag}].state_t_next==answer", P, to_z3(obj.attrs["_t_next"]) == to_z3(r))
             U.prove(f"initialize[{tag}].dt_kept", P, to_z3(obj.attrs["dt"]) == dt)
             U.cover(f"initialize[{tag}].cover", P)
@@ -89,6 +94,13 @@ def _const_next(U, clsname, tag):
         U.prove(f"{nm}.answer_is_first_admissible_lattice_point", P, z3.Or(r == first, r - step < t))
         U.prove(f"{nm}.state_t_next==answer", P, to_z3(obj.attrs["_t_next"]) == r)
         U.prove(f"{nm}.dt_update", P, to_z3(obj.attrs["dt"]) == step)
+        if log:
+            # ghost: the previous gap was (1 + m) * dt for some m >= 0 (m skipped lattice points); the statement (and the class
+            # docstring: "ensures ever increasing durations") asks for growing gaps
+            m = z3.Int("skipped_before")
+            last_gap = z3.ToReal(1 + m) * dt
+            U.prove(f"{nm}.gap_does_not_shrink", P + [m >= 0], r - prev >= last_gap,
+                    info={"witness": "queries 0, 10, 10, 10 with dt_initial=1, factor=2: answers 0, 10, 12, 16 (gaps 10, 2, 4)", "replay_payload": {"gaps": True}})
         U.cover(f"{nm}.cover", P)
     U.assume_note("the float guard `if self._t_next < t` is unreachable in real arithmetic (proved: every path through it is infeasible or harmless)")
 
